@@ -10,6 +10,7 @@ mod registry;
 mod select;
 mod shutdown;
 mod supervision;
+mod timers;
 
 pub struct Args(HashMap<String, String>);
 impl Args {
@@ -64,6 +65,7 @@ fn main() {
         "shutdown" => shutdown::run(&args),
         "registry" => registry::run(&args),
         "life" => life::run(&args),
+        "timers" => timers::run(&args),
         "select_listen" => select::listen(&args),
         "select_rws" => select::rws(&args),
         "supervision" => supervision::run(&args),
